@@ -4,6 +4,15 @@ Num.vos Num.vok Num.required_vos: Num.v
 FloatFun.vo FloatFun.glob FloatFun.v.beautified FloatFun.required_vo: FloatFun.v Num.vo
 FloatFun.vio: FloatFun.v Num.vio
 FloatFun.vos FloatFun.vok FloatFun.required_vos: FloatFun.v Num.vos
+RFacts.vo RFacts.glob RFacts.v.beautified RFacts.required_vo: RFacts.v 
+RFacts.vio: RFacts.v 
+RFacts.vos RFacts.vok RFacts.required_vos: RFacts.v 
 Model/Eject.vo Model/Eject.glob Model/Eject.v.beautified Model/Eject.required_vo: Model/Eject.v Num.vo
 Model/Eject.vio: Model/Eject.v Num.vio
 Model/Eject.vos Model/Eject.vok Model/Eject.required_vos: Model/Eject.v Num.vos
+Proofs/EjectProofs.vo Proofs/EjectProofs.glob Proofs/EjectProofs.v.beautified Proofs/EjectProofs.required_vo: Proofs/EjectProofs.v Num.vo RFacts.vo Model/Eject.vo
+Proofs/EjectProofs.vio: Proofs/EjectProofs.v Num.vio RFacts.vio Model/Eject.vio
+Proofs/EjectProofs.vos Proofs/EjectProofs.vok Proofs/EjectProofs.required_vos: Proofs/EjectProofs.v Num.vos RFacts.vos Model/Eject.vos
+Properties/C07.vo Properties/C07.glob Properties/C07.v.beautified Properties/C07.required_vo: Properties/C07.v Num.vo FloatFun.vo Model/Eject.vo Proofs/EjectProofs.vo
+Properties/C07.vio: Properties/C07.v Num.vio FloatFun.vio Model/Eject.vio Proofs/EjectProofs.vio
+Properties/C07.vos Properties/C07.vok Properties/C07.required_vos: Properties/C07.v Num.vos FloatFun.vos Model/Eject.vos Proofs/EjectProofs.vos
